@@ -17,7 +17,7 @@ ASSUMPTIONS = [
     "JSON strings starting with NUL are binaries by WAMP convention",
 ]
 BOUNDS = {
-    "quick": "25 classes x {no option, each single option, all options} with free 53-bit ids and free numeric options; batches of N <= 3 blobs with lengths 0..2 per batched serializer incl. truncated/garbled batches; cache across two serializers; real codecs on boundary values (0, 1, 2^53, unicode, binary, nested) for every class with all options",
+    "quick": "25 classes x {no option, each single option, all options} with free 53-bit ids and free numeric options; batches of N <= 3 blobs with lengths 0..2 per batched serializer incl. truncated/garbled batches; cache across two serializers; real codecs on boundary values (0, 1, 2^53, unicode, binary, nested) for every class with all options; JSON serializer objects with 5 different constructor option sets side by side in both orders (modes/ units); REGISTER/SUBSCRIBE URIs from a per-match-policy menu incl. empty components",
     "thorough": "additionally all pairs of options per class; N <= 4, lengths 0..3",
 }
 EXPECT_COVERS = ["real:modes", "real:payload", "rt:bare", "rt:single", "rt:all", "batch:ok", "batch:malformed", "cache", "real:json", "real:msgpack", "real:cbor", "real:ubjson", "binflag"]
